@@ -323,7 +323,37 @@ def e_change_kind(rng, d):
     return n, {"TypeChangedKind"}, {"TypeChangedKind"}, name, None, o
 
 
-EDITS = [e_add_type, e_add_field, e_retype_field, e_add_arg, e_retype_arg, e_arg_default, e_null_default, e_add_input_field,
+def e_root_repoint(rng, d):
+    """the root operation type of one operation kind is re-pointed to another object type (both stay defined)"""
+    n = copy.deepcopy(d)
+    ops = [op for op in ("query", "mutation", "subscription") if n.get(op)]
+    op = rng.choice(ops)
+    roots = {n.get(k) for k in ("query", "mutation", "subscription")}
+    cands = [o["name"] for o in _objs(n) if o["name"] not in roots and o["fields"]]
+    if not cands:
+        return None
+    target = rng.choice(cands)
+    n[op] = target
+    return n, {"RootTypeChanged"}, {"RootTypeChanged"}, target
+
+
+def e_root_added(rng, d):
+    """a mutation / subscription root is added (reverse: removed, which takes a whole operation kind away)"""
+    n = copy.deepcopy(d)
+    free = [op for op in ("mutation", "subscription") if not n.get(op)]
+    if not free:
+        return None
+    op = rng.choice(free)
+    roots = {n.get(k) for k in ("query", "mutation", "subscription")}
+    cands = [o["name"] for o in _objs(n) if o["name"] not in roots and o["fields"]]
+    if not cands:
+        return None
+    target = rng.choice(cands)
+    n[op] = target
+    return n, {"RootTypeAdded"}, {"RootTypeRemoved"}, target
+
+
+EDITS = [e_root_repoint, e_root_added, e_add_type, e_add_field, e_retype_field, e_add_arg, e_retype_arg, e_arg_default, e_null_default, e_add_input_field,
          e_retype_input_field, e_add_enum_value, e_enum_deprecation, e_field_deprecation, e_union_member,
          e_implement_interface, e_add_directive, e_directive_location, e_directive_arg, e_retype_directive_arg,
          e_change_kind]
